@@ -487,7 +487,7 @@ pub fn hist_step(ctx: &mut Ctx, root: &Pos, p: &Pos, board: &Board, m: Mv, path:
     let q = p.apply(m);
     path.push(m);
     let first_new = ctx.viol.len();
-    set_slot_pos(&q);
+    set_slot_hist(root, path);
     if let Err(msg) = guarded(|| check(ctx, &q, &nb)) {
         ctx.violate(case_pos(&q, "panic"), format!("panic: {}", msg));
     }
